@@ -182,9 +182,9 @@ def constexpr(p, op, ty):
         return Const('ccast', dt, (op, x))
 
 class Instr:
-    __slots__ = ('dst', 'op', 'ty', 'args', 'extra', 'line')
+    __slots__ = ('dst', 'op', 'ty', 'args', 'extra', 'line', 'align')
     def __init__(s, dst, op, ty=None, args=None, extra=None, line=''):
-        s.dst = dst; s.op = op; s.ty = ty; s.args = args or []; s.extra = extra; s.line = line
+        s.dst = dst; s.op = op; s.ty = ty; s.args = args or []; s.extra = extra; s.line = line; s.align = None
 
 class Block:
     def __init__(s, name): s.name = name; s.ins = []; s.succ = []
@@ -344,12 +344,17 @@ class Module:
         return f
 
     def parse_instr(s, st):
-        toks = strip_meta(tokenize(st)); p = P(toks, s)
+        raw = tokenize(st); al = None
+        for i_ in range(len(raw) - 2):
+            if raw[i_][1] == ',' and raw[i_ + 1] == ('word', 'align'):
+                try: al = int(raw[i_ + 2][1])
+                except (ValueError, TypeError): pass
+        toks = strip_meta(raw); p = P(toks, s)
         dst = None
         if p.peek()[0] == 'lid' and p.peek(1)[1] == '=':
             dst = p.next()[1]; p.next()
         op = p.next()[1]
-        I = Instr(dst, op, line=st)
+        I = Instr(dst, op, line=st); I.align = al
         if op in ('tail', 'musttail', 'notail'):
             op = p.next()[1]; I.op = op
         if op in BINOPS:
@@ -562,6 +567,7 @@ def cell_eq(a, b):
 
 class Exec:
     def __init__(s, mod, fmode='fp', unwind=16, libm=None):
+        s.objalign = {}; s.check_align = False
         s.mod = mod; s.fmode = fmode; s.unwind = unwind
         s.nfresh = 0; s.nobj = 0
         s.obligations = []     # (kind, cond, descr): cond must be UNSAT (unwinding, UB, traps)
@@ -576,6 +582,14 @@ class Exec:
         s.nfresh += 1; return z3.BitVec('%s!%d' % (pfx, s.nfresh), n)
     def fresh_real(s, pfx='r'):
         s.nfresh += 1; return z3.Real('%s!%d' % (pfx, s.nfresh))
+    def check_alignment(s, p, n, what):
+        """opt-in (s.check_align): an access the IR marks 'align n' (clang derives n from the static type, e.g. 16 for *(__m128i*)) on an object that is only
+        guaranteed a smaller alignment, or at an offset that is not a multiple of n, is what -fsanitize=alignment reports"""
+        if not getattr(s, 'check_align', False) or not n or n <= 1 or not isinstance(p, Ptr) or not isinstance(p.off, int): return
+        a = s.objalign.get(p.obj)
+        if a is None: return
+        if a % n != 0 or p.off % n != 0:
+            s.oblige('misaligned', z3.BoolVal(True), '%s with align %d of %s+%d (object alignment %d)' % (what, n, p.obj, p.off, a))
     def newobj(s, mem, size, name='o', init=None):
         s.nobj += 1; oid = '%s%d' % (name, s.nobj); mem.new(oid, size, init); return oid
 
@@ -998,6 +1012,10 @@ class Exec:
             # address = fresh per-object base + offset (no layout assumptions between objects); enough for pointer differences / comparisons inside one object
             def p2i(p):
                 base = bv(0, 64) if p.obj == 'null' else z3.BitVec('addr!%s' % p.obj, 64)
+                a_ = s.objalign.get(p.obj)
+                if p.obj != 'null' and a_ and a_ > 1 and (a_ & (a_ - 1)) == 0:      # the object's guaranteed alignment (alloca / wrapper array), for -fsanitize=alignment checks
+                    ax = (base & bv(a_ - 1, 64)) == 0
+                    if not any(ax.eq(x) for x in s.axioms): s.axioms.append(ax)
                 return base + (bv(p.off, 64) if isinstance(p.off, int) else p.off)
             if isinstance(v, MPtr):
                 r = p2i(v.alts[-1][1])
@@ -1104,7 +1122,10 @@ class FuncRun:
         s.region(s.rpo, None)
         # merge returns
         ex = s.ex
-        if not s.rets: raise Unsupported('no return reached')
+        if not s.rets:
+            # every path ends in a trap / unreachable (e.g. clang proved a sanitizer check always fails): the obligations already say so
+            if getattr(ex, 'allow_noreturn', False) and ex.obligations: return None, s.mem0
+            raise Unsupported('no return reached')
         val = s.rets[-1][1]
         for c, v, m in reversed(s.rets[:-1]):
             val = ex.ite(c, v, val)
@@ -1215,11 +1236,14 @@ class FuncRun:
             return ex.ite(cc, a, b)
         if op == 'freeze': return C(I.args[0])
         if op == 'alloca':
-            return Ptr(ex.newobj(mem, ex.mod.size(I.ty), 'a'), 0)
+            oid = ex.newobj(mem, ex.mod.size(I.ty), 'a'); ex.objalign[oid] = getattr(I, 'align', None) or ex.mod.align(I.ty)
+            return Ptr(oid, 0)
         if op == 'load':
-            return ex.load(mem, C(I.args[0]), I.ty)
+            pp = C(I.args[0]); ex.check_alignment(pp, getattr(I, 'align', None), 'load')
+            return ex.load(mem, pp, I.ty)
         if op == 'store':
-            ex.store(mem, C(I.args[1]), C(I.args[0]), I.ty); return None
+            pp = C(I.args[1]); ex.check_alignment(pp, getattr(I, 'align', None), 'store')
+            ex.store(mem, pp, C(I.args[0]), I.ty); return None
         if op == 'getelementptr':
             return ex.gep(C(I.args[0]), I.ty, [C(i) for i in I.args[1]])
         if op == 'extractvalue':
